@@ -92,7 +92,10 @@ public:
 private:
     template <typename Split>
     void do_split( blocked_range2d& r, Split& split_obj ) {
-        if ( my_rows.size()*double(my_cols.grainsize()) < my_cols.size()*double(my_rows.grainsize()) ) {
+        // The ratios are compared in floating point, where sizes above 2^53 round and a tie goes to the rows:
+        // a dimension that is not divisible is never chosen.
+        if ( !my_rows.is_divisible() || (my_cols.is_divisible() &&
+             my_rows.size()*double(my_cols.grainsize()) < my_cols.size()*double(my_rows.grainsize())) ) {
             my_cols.my_begin = col_range_type::do_split(r.my_cols, split_obj);
         } else {
             my_rows.my_begin = row_range_type::do_split(r.my_rows, split_obj);
